@@ -24,6 +24,10 @@ LEVEL = {
             "attempt = first crossing (complete spec), reset and fresh threshold, user thresholds first, inverse-CDF target slot of length g_j/G, "
             "hop-time law prod(1-p_i) p_k (Poisson equivalence), zero-rate steps never attempt. Tied to TrajectoryCum.hopper on driven sequences", "7 C09", NOTE,
             "Lean 4 theorems (list induction, Real.exp algebra) + sequence correspondence"),
+    "C17": ("proof", "Lean theorems for any list of traces with weights >= 0, total > 0: every table entry in [0,1], entries sum to one (1-D), "
+            "table/counts/histogram invariant under List.Perm, counts = cardinality, hop histogram sums to one, driver row = row-major table. "
+            "Tied to real batches of all five classes (even-sampling trees with unequal weights), both stores, summarize() text and CLI rows", "7 C17", NOTE,
+            "Lean 4 theorems (list sums, permutations) + correspondence on real batches"),
     "C18": ("proof", "Lean theorems for EVERY point count n and interval a<b: midpoint/trapezoid/Simpson have positive weights, strictly increasing nodes "
             "in [a,b], weights summing to b-a and are exact to degree 1/1/3 (Simpson via a panel decomposition of the loop's 1,4,2,..,4,1 pattern, all odd n); "
             "affine transport: a rule exact to degree d on [-1,1] is exact to degree d on [a,b] under the code's map (all polynomials), so Gauss-Legendre = "
